@@ -237,8 +237,32 @@ static int scan_number(rs_t *s)
     }
     if (run > 63)
     {
-        s->undecided = 1;
-        s->i += run;
+        /* a run of number characters beyond the documented 63-character limit.  If the C library reads the WHOLE run as
+         * one number, acceptance depends on how the limit is implemented (today: refused inside containers): no verdict.
+         * If it does not (malformed tail such as "e+-.5e", or no digits at all), then no reading makes the run a number
+         * token: whatever prefix is a number is followed by a number character, which can follow a value nowhere - the
+         * ordinary rules decide (rejected inside containers and when termination is required). */
+        size_t consumed = run;
+        if (run < sizeof(tmp) - 2)
+        {
+            memcpy(tmp, p, run);
+            tmp[run] = '\0';
+            (void)strtod(tmp, &end);
+            consumed = (size_t)(end - tmp);
+        }
+        if (consumed == run)
+        {
+            s->undecided = 1;
+            s->i += run;
+            return 1;
+        }
+        if (consumed == 0)
+        {
+            s->bad = s->i;
+            return 0;
+        }
+        s->lenient = 1;
+        s->i += consumed;
         return 1;
     }
     strict_len = strict_number_len(p, avail);
